@@ -212,3 +212,51 @@ def _h2_wire(is_async: bool, method: str, target: typing.Any, headers: list, kin
     P.check(st["ended"], "stream-ended", "h2:not-ended")
     ends = [e for e in srv.events if type(e).__name__ == "StreamEnded" and e.stream_id == sid]
     P.check(len(ends) == 1, "exactly-one-END_STREAM", "h2:end-stream-count")
+
+
+REJECTED_BY_H2: tuple[list[tuple[bytes, bytes]], ...] = (
+    [(b"TE", b"gzip")],                      # only 'trailers' is allowed
+    [(b":unknown", b"x")],                   # a pseudo-header httpcore does not know
+    [(b"X-A", b"1"), (b"te", b"deflate")],
+)
+
+
+@harness(
+    "C03", "h2_rejected_head",
+    quick=[{"flavour": fl, "ct": ct} for fl in ("sync", "async") for ct in ("h2", "h2prior")],
+    example=dict(hs=0, warm=True, same_host=True),
+    require=("rejected", "follow-up-sent"),
+    timeout={"quick": 200, "thorough": 400},
+    symbolic="which head the h2 library itself refuses to encode (3: TE other than trailers, an unknown pseudo-header, a later te field), whether the connection was used before, whether the follow-up request goes to the same host",
+    bounds="one refused request followed by an ordinary request through the same pool (max_connections=2)",
+    outside="heads that h2 accepts although they are illegal (known finding D27 under C15)",
+    stubs=("h2 library in server role decodes every connection's frames (own HPACK decoder)",),
+)
+def h2_rejected_head(hs: int, warm: bool, same_host: bool) -> None:
+    """
+    pre: 0 <= hs <= 2
+    post: _
+    """
+    headers = list(pick(hs, REJECTED_BY_H2))
+    w, sh = bool(warm), bool(same_host)
+    with concrete(w, sh):
+        su = Setup(shard("ct", "h2"), shard("flavour", "sync") == "async", max_connections=2)
+        ext = {"timeout": {"pool": 0, "read": 5, "write": 5, "connect": 5}}
+        if w:
+            o0 = su.api.request(su.pool, "GET", su.url("warmup"), extensions=ext)
+            if not P.check(o0.ok, "warmup-ok", "h2:rejected:warmup"):
+                return
+        written0 = sum(len(s.written()) for s in su.net.socks)
+        o = su.api.request(su.pool, "GET", su.url("refused"), headers=headers, extensions=ext)
+        P.note(outcome=o.kind(), headers=headers)
+        if not P.check(isinstance(o.exc, httpcore.LocalProtocolError), "illegal-head-gives-LocalProtocolError", lambda: f"h2:rejected:{o.kind()}"):
+            return
+        P.cover("rejected")
+        heads = [st for srv in su.origins for st in srv.streams.values() if (b":path", b"/refused") in st["headers"]]
+        P.check(not heads, "nothing-of-an-illegal-request-is-written", "h2:rejected:head-on-the-wire")
+        o2 = su.api.request(su.pool, "GET", su.url("after", host="example.com" if sh else "other.test"), extensions=ext)
+        P.cover("follow-up-sent")
+        # every transmission attempt of the follow-up request decodes at the peer that received it
+        bad = [v for srv in su.origins for v in srv.violations]
+        P.check(not bad, "every-transmission-attempt-of-the-next-request-decodes", lambda: f"h2:rejected:next-request-undecodable:{bad[0].split(':')[0]}")
+        P.check(o2.ok and o2.value.status == 200, "follow-up-request-ok", lambda: f"h2:rejected:follow-up:{o2.kind()}")
